@@ -266,7 +266,7 @@ fn events_json(events: &[Ev]) -> Value {
 }
 
 fn skeleton(events: &[Ev]) -> Value {
-	Value::Array(events.iter().map(|e| json!({"lvl": e.lvl, "ev": e.ev, "c": e.c, "mk": e.mk, "mi": e.mi, "vis": e.vis})).collect())
+	Value::Array(events.iter().map(|e| json!([e.lvl, e.ev, e.c, e.mk, e.mi, e.vis, e.frame])).collect())
 }
 
 /// `n` successive reads on one stream with a recording visitor; stops at the first failing read.
@@ -357,10 +357,12 @@ pub fn exec(v: &Value) -> Result<Value> {
 			let mut reads = vec![];
 			for (k, r) in runs.iter().enumerate() {
 				end += lens[k];
-				reads.push(json!({"ok": r.ok, "events": events_json(&r.events), "pos": r.pos, "behind": end - r.pos as i64,
-					"skeleton": skeleton(&r.events), "err": err_head(&r.err)}));
+				reads.push(json!({"ok": r.ok, "events": events_json(&r.events), "pos": r.pos, "behind": end - r.pos as i64, "err": err_head(&r.err)}));
 			}
-			Ok(json!({"lens": lens, "fulls": fulls, "reads": reads}))
+			Ok(json!({"lens": lens, "fulls": fulls, "reads": reads,
+				"oks": runs.iter().map(|r| r.ok).collect::<Vec<_>>(),
+				"behinds": reads.iter().map(|r| r["behind"].clone()).collect::<Vec<_>>(),
+				"skeletons": runs.iter().map(|r| skeleton(&r.events)).collect::<Vec<_>>()}))
 		},
 		"accept" => {
 			let bytes = class_bytes(&v["cls"])?;
